@@ -20,6 +20,7 @@ from elementpath.aliases import AnyNsmapType
 from elementpath.protocols import XsdTypeProtocol
 from elementpath.exceptions import xpath_error
 from elementpath.namespaces import XSD_NAMESPACE
+from elementpath.helpers import split_white_spaces
 import elementpath.datatypes as dt
 
 
@@ -164,7 +165,7 @@ def get_atomic_sequence(xsd_type: Optional[XsdTypeProtocol],
         for value in iter_atomic_values(xsd_type):
             try:
                 if xsd_type.is_list():
-                    for item in text.split():
+                    for item in split_white_spaces(text):
                         yield decode(item)
                 else:
                     yield decode(text)
